@@ -105,6 +105,7 @@ def parse_run(meta, rc, stdout, stderr):
             txt = ' '.join(t['text'][t['highlight_start'] - 1:t['highlight_end'] - 1] if len(s['text']) == 1 else t['text'].strip()
                            for t in s.get('text', []))
             txt = re.sub(r'/\*[+\-~@][^*]*\*/', '', txt)
+            txt = re.sub(r'/\*@props [A-Z0-9,]+\*/', '', txt)
             txt = re.sub(r'\s+', ' ', txt).strip()
             labelled[s.get('label') or ''] = txt[:300]
         for lab in ('failed this postcondition', 'failed precondition', 'assertion failed', 'failed this invariant'):
@@ -127,8 +128,27 @@ def parse_run(meta, rc, stdout, stderr):
                 k = pre.rfind('=>')
                 if k >= 0:
                     site_ctx = re.sub(r'\s+', ' ', pre[max(0, k - 90):k]).strip().split(',')[-1].strip()
+        # clause-level property tags: `/*@props C09,C01*/` on the failing clause / assert narrows the region's tags
+        props = list(region['props']) if region else []
+        clause_spans = [sp for sp in ours if (sp.get('label') or '') in clause_labels] or prim
+        if src_lines is None:
+            try:
+                src_lines = open(meta['file'], encoding='utf-8').read().split('\n')
+            except OSError:
+                src_lines = []
+        for sp in clause_spans:
+            found = None
+            for ln in range(sp['line_start'], min(sp['line_end'], sp['line_start'] + 12) + 1):
+                if 0 < ln <= len(src_lines):
+                    mm = re.search(r'/\*@props ([A-Z0-9,]+)\*/', src_lines[ln - 1])
+                    if mm:
+                        found = [x for x in mm.group(1).split(',') if x]
+                        break
+            if found:
+                props = found
+                break
         rec = {'message': msg, 'kind': kind, 'line': line, 'site_ctx': site_ctx, 'region': region['name'] if region else None,
-               'props': region['props'] if region else [], 'clause': clause, 'site': site,
+               'props': props, 'clause': clause, 'site': site,
                'rendered': d.get('rendered', '')[:4000]}
         if kind is None:
             res['tool_errors'].append(rec)
